@@ -164,6 +164,55 @@ let run_sem = function
      | Err0 -> "err" | Unsup -> "unsup" | Fuel -> "fuel")
   | _ -> failwith "sem"
 
+(* ---- VM model ---- *)
+let rec sexp_of_wval (v : wval) : Sexp.t = match v with
+  | WSym s -> L [A "sym"; A (atom_of_bytes s)]
+  | WInt z -> L [A "int"; A (z_to_string z)]
+  | WFloat f -> L [A "float"; A (z_to_string (sem_float_bits f))]
+  | WStr s -> L [A "str"; A (atom_of_bytes s)]
+  | WBool v -> L [A "bool"; A (if v then "1" else "0")]
+  | WEmpty -> L [A "null"]
+  | WList l -> L (A "list" :: List.map sexp_of_wval l)
+  | WTuple fs -> L (A "tuple" :: List.map (fun (k, v) -> L [A (atom_of_bytes k); sexp_of_wval v]) fs)
+  | WThunk _ -> L [A "thunk"]
+  | WFunc _ -> L [A "func"]
+  | WMod _ -> L [A "module"]
+let run_vm = function
+  | L [A fuel; A strict; A _; L envl; L stmts] ->
+    let envv = List.map (function L [A k; A v] -> (bytes_of_atom k, bytes_of_atom v) | _ -> failwith "env") envl in
+    (match vm_run_prog (nat_of_int (int_of_string fuel)) envv (strict = "1") (List.map stmt_of_sexp stmts) with
+     | VOk bs -> "ok " ^ to_string (L (List.map (fun (k, v) -> L [A (atom_of_bytes k); sexp_of_wval v]) bs))
+     | VErr -> "err" | VBug -> "bug" | VUnsup -> "unsup" | VFuel -> "fuel")
+  | _ -> failwith "vm"
+let string_of_lit = function
+  | LInt z -> "Int:" ^ z_to_string z | LFloat b -> "Float:" ^ z_to_string b | LStr s -> "Str:" ^ atom_of_bytes s
+  | LBool v -> "Bool:" ^ (if v then "true" else "false") | LEmpty -> "Empty"
+let string_of_hook = function
+  | HMap -> "Map" | HInclude -> "Include" | HFilter -> "Filter" | HReduce -> "Reduce" | HImport -> "Import" | HOut -> "Out"
+  | HAssert -> "Assert" | HConvert -> "Convert" | HRegex -> "Regex" | HRange -> "Range" | HTrace -> "Trace"
+let string_of_instr = function
+  | IBind -> "Bind" | IBindOver -> "BindOver" | IPop -> "Pop" | INewScope j -> "NewScope:" ^ string_of_int (int_of_nat j)
+  | IAdd -> "Add" | ISub -> "Sub" | IDiv -> "Div" | IMul -> "Mul" | IMod -> "Mod"
+  | IEqual -> "Equal" | IGt -> "Gt" | ILt -> "Lt" | IGtEq -> "GtEq" | ILtEq -> "LtEq" | INot -> "Not"
+  | IVal l -> "Val:" ^ string_of_lit l
+  | ICast CInt -> "Cast:int" | ICast CFloat -> "Cast:float" | ICast CStr -> "Cast:str" | ICast CBool -> "Cast:bool"
+  | ISym s -> "Sym:" ^ atom_of_bytes s | IDeRef s -> "DeRef:" ^ atom_of_bytes s
+  | IInitTuple -> "InitTuple" | IField -> "Field" | IInitList -> "InitList" | IElement -> "Element" | ICp -> "Cp"
+  | IBang -> "Bang" | IJump j -> "Jump:" ^ string_of_int (int_of_nat j)
+  | IJumpIfTrue j -> "JumpIfTrue:" ^ string_of_int (int_of_nat j) | IJumpIfFalse j -> "JumpIfFalse:" ^ string_of_int (int_of_nat j)
+  | ISelectJump j -> "SelectJump:" ^ string_of_int (int_of_nat j)
+  | IAnd j -> "And:" ^ string_of_int (int_of_nat j) | IOr j -> "Or:" ^ string_of_int (int_of_nat j)
+  | IIndex -> "Index" | ISafeIndex -> "SafeIndex" | IExist -> "Exist" | INoop -> "Noop"
+  | IInitThunk j -> "InitThunk:" ^ string_of_int (int_of_nat j) | IModule j -> "Module:" ^ string_of_int (int_of_nat j)
+  | IFunc j -> "Func:" ^ string_of_int (int_of_nat j) | IReturn -> "Return" | IFCall -> "FCall" | ITyp -> "Typ"
+  | IRuntime h -> "Runtime:" ^ string_of_hook h | IRender -> "Render" | IPushSelf -> "PushSelf" | IPopSelf -> "PopSelf"
+  | ITranslatorPanic -> "TRANSLATOR-PANIC"
+let run_ops = function
+  | L [A _; A _; A _; L _; L stmts] ->
+    let p = List.map stmt_of_sexp stmts in
+    (if in_fragment p then "frag " else "nofrag ") ^ String.concat " " (List.map string_of_instr (translate p))
+  | _ -> failwith "ops"
+
 (* ---- C14 ---- *)
 let opt_bytes = function A "none" -> None | A a -> Some (bytes_of_atom a) | _ -> failwith "opt_bytes"
 let run_out atomic = function
@@ -204,6 +253,8 @@ let run mode (line : string) : string =
                                                | None -> "none" | Some r -> atom_of_bytes r) | _ -> failwith "b64dec")
   | "normalize" -> (match x with A h -> atom_of_bytes (normalize (bytes_of_atom h)) | _ -> failwith "normalize")
   | "sem" -> run_sem x
+  | "vm" -> run_vm x
+  | "ops" -> run_ops x
   | "env_emit" -> atom_of_bytes (env_emit Fixed (val_of_sexp x))
   | "env_emit_legacy" -> atom_of_bytes (env_emit Legacy (val_of_sexp x))
   | "flags_emit" -> (match flags_emit (val_of_sexp x) with None -> "err" | Some o -> atom_of_bytes o)
